@@ -2,7 +2,7 @@
    Statements only (copied from the lemma libraries); every proof is a bare
    `exact`; see the cited files in coq/proofs for the proofs. *)
 From Coq Require Import List NArith ZArith Bool Arith Sorting.Sorted Sorting.Permutation.
-From D2P Require Import Str Err Xml TableTypes Tables Fmt Bullets Merge Collector Walk ShapeFacts TokFacts FrameFacts BulletsFacts LineageFacts Predicates SeqFacts Iter Output Paths Package Content Utilities UtilFacts.
+From D2P Require Import Str Err Xml TableTypes Tables Fmt Bullets Merge Collector Walk ShapeFacts TokFacts FrameFacts BulletsFacts LineageFacts Predicates SeqFacts Iter Output Paths Package Content Utilities UtilFacts PyVal Source SourceBase SourceIter SourcePred.
 Import ListNotations.
 
 (* for EVERY table written as tbl/tr/tc/p directly nested (any number of rows, cells, paragraphs, any merged cells, any inline content), walked from any reachable state in any part: every paragraph it contributes reports the lineage (tbl, tr, tc, p) - or is the empty fill paragraph of a blanked merged position *)
@@ -174,3 +174,24 @@ Theorem C05_heading_pattern :
   exists d rest, s = s_Heading ++ d :: rest /\ is_unicode_digit d = true.
 Proof. exact heading_match_spec. Qed.
 Print Assumptions C05_heading_pattern.
+
+(* TIE TO THE SOURCE TEXT (gen/Source.v is regenerated from /repo by tools/gen_source.py on every run): iterators.is_tbl as translated from the Python source (with suppress(StopIteration): next(iter_at_depth(x, 3)).lineage[1] == 'tbl'; False when there is no paragraph) equals the model's predicate on every nested list of records *)
+Theorem C05_source_is_tbl :
+  forall (x : rose par) fuel, (5 < fuel)%nat ->
+  S_is_tbl fuel (enc_rose enc_par_lin x) = lift_bool (is_tbl x).
+Proof. exact src_is_tbl. Qed.
+Print Assumptions C05_source_is_tbl.
+
+(* is_tr likewise *)
+Theorem C05_source_is_tr :
+  forall (x : rose par) fuel, (5 < fuel)%nat ->
+  S_is_tr fuel (enc_rose enc_par_lin x) = lift_bool (is_tr x).
+Proof. exact src_is_tr. Qed.
+Print Assumptions C05_source_is_tr.
+
+(* is_tc likewise *)
+Theorem C05_source_is_tc :
+  forall (x : rose par) fuel, (5 < fuel)%nat ->
+  S_is_tc fuel (enc_rose enc_par_lin x) = lift_bool (is_tc x).
+Proof. exact src_is_tc. Qed.
+Print Assumptions C05_source_is_tc.
